@@ -918,6 +918,9 @@ def _operand(x):
         return [x], (), _D('U1'), True
     if x is None:
         return [x], (), _OBJ, True
+    if _isinstance(x, (_np.generic, _np.ndarray)):
+        a = ndarray._from_real(x)              # a real NumPy scalar / array built by the lifted code from concrete values (np.uint64(1 << n))
+        return a._cells(), a._shape, a.dtype, a._shape == ()
     raise TypeError('unsupported operand for array operation: %r' % (type(x),))
 
 
